@@ -46,10 +46,11 @@ TimestampOf(i) == Sub(Add(MulSmall(FromInt(i.dn), SPD), FromInt(i.sod)), EpochSe
 (***************************************************************************)
 \* A result that is representable but whose local view (under the value's offset) is not lies in
 \* the one-day margin the properties leave open: its getters cannot be read.
+\* C04: "whenever that instant is representable" - also when the result's local reading (under the unchanged
+\* offset) is not: such a value can be compared, subtracted and moved back, only its local fields cannot be read
 DtShifted(a, amount, sign) ==
   LET r == Shift(InstOf(a), amount, sign)
-  IN IF r.k # "ok" THEN {Panic}
-     ELSE IF LocalOf(r.inst, a.off).ok THEN {OkDt(r.inst, a.off)} ELSE {AnyOutcome}
+  IN IF r.k # "ok" THEN {Panic} ELSE {OkDt(r.inst, a.off)}
 
 \* date-field getters and setters work on the local view
 DtLocal(a) == LocalOf(InstOf(a), a.off)
@@ -73,11 +74,9 @@ DtFromLocal(a, dn2, sod2, ns2) ==
 \* nothing else is.  r = the shift of the stored day.
 DtShiftMonthsOff(a, n, k, sign, r) ==
   LET l == DtLocal(a) IN
-  IF ~l.ok THEN {AnyOutcome} ELSE
+  IF ~l.ok THEN (IF r.k # "ok" THEN {Panic} ELSE {OkDt(Inst(r.dn, a.sod, a.ns), a.off)}) ELSE
   LET rl == ShiftMonthsWide(l.dn, n, k, sign)
-      viaStored == IF r.k # "ok" THEN {Panic}
-                   ELSE IF LocalOf(Inst(r.dn, a.sod, a.ns), a.off).ok THEN {OkDt(Inst(r.dn, a.sod, a.ns), a.off)}
-                   ELSE {AnyOutcome}
+      viaStored == IF r.k # "ok" THEN {Panic} ELSE {OkDt(Inst(r.dn, a.sod, a.ns), a.off)}
       viaLocal == IF rl.k # "ok" THEN {Panic} ELSE DtFromLocal(a, rl.dn, l.sod, l.ns)
   IN viaStored \cup viaLocal
 
@@ -100,7 +99,9 @@ DateFields == {"year", "month", "day", "doy"}
 \* vBig = TRUE: the argument does not fit 31 bits (certainly out of every field's range)
 DtSet(a, f, v, vBig) ==
   LET l == DtLocal(a) IN
-  IF ~l.ok THEN {AnyOutcome} ELSE
+  \* a receiver whose local reading is not representable (obtainable by arithmetic on a value with an offset at the
+  \* ends of the range) has no local field to replace: refused, not a panic (C15)
+  IF ~l.ok THEN {ErrOOR} ELSE
   IF f \in DateFields THEN
      (IF vBig THEN {ErrOOR} ELSE
       LET r == DateFieldSet(l.dn, f, v) IN
@@ -307,8 +308,7 @@ Allowed(e, a, b) ==
                          IN IF u.ok THEN {OkDt(Inst(u.dn, u.sod, u.ns), a.off)} ELSE {AnyOutcome}
          IN {OkDt(Inst(0, a.sod, a.ns), a.off)} \cup (IF a.off = 0 THEN {} ELSE viaLocal)
     [] op = "dt_set_time" ->
-         LET viaStored == IF LocalOf(Inst(a.dn, b.sod, b.ns), a.off).ok
-                          THEN {OkDt(Inst(a.dn, b.sod, b.ns), a.off)} ELSE {AnyOutcome}
+         LET viaStored == {OkDt(Inst(a.dn, b.sod, b.ns), a.off)}
              l == DtLocal(a)
              lt == TodLocal(TodOf(b), b.off)
              viaLocal == IF ~l.ok THEN {AnyOutcome} ELSE DtFromLocal(a, l.dn, lt.sod, lt.ns)
